@@ -216,9 +216,9 @@ pub fn generate(seed: u64, tier: &str, sink: &mut Sink) {
                 cfgs.push(Cfg { addrs: a.clone(), mapped: vec![], deadline_ms: d, ct_ms: CONNECT_TIMEOUT_MS });
             }
             // an overall deadline that has already expired when the race starts: every attempt reports a
-            // timeout, and that is the error the caller gets (seed C17-seed6). (With a single address the
-            // fast path does not consult the deadline; what happens after the connection is C13's business.)
-            if a.len() >= 2 {
+            // timeout, and that is the error the caller gets (seed C17-seed6); since fix F19 the single
+            // address of the fast path is dialled under the deadline as well
+            if a.len() >= 1 {
                 cfgs.push(Cfg { addrs: a.clone(), mapped: vec![], deadline_ms: Some(0), ct_ms: CONNECT_TIMEOUT_MS });
             }
             // connect timeouts shorter than the race: every attempt has its own full connect timeout
@@ -246,6 +246,8 @@ pub fn generate(seed: u64, tier: &str, sink: &mut Sink) {
         // an overall deadline that has already expired when the race starts (seed C17-seed6)
         for a in [
             vec![(true, 'a'), (false, 'a')],
+            vec![(false, 'a')],
+            vec![(true, 'b')],
             vec![(false, 'r'), (true, 'b')],
             vec![(true, 'b'), (false, 'b')],
             vec![(true, 'a'), (true, 'r'), (false, 'b')],
